@@ -4,34 +4,16 @@
  * mode "sweep"  : all 256x256 (ToS,opcode) single steps from M2 in the states
  *                 "no mapper" (a=0) and "M1 active" (a=1), each followed by the probe
  *                 Discovers from M1 and M2 on restored copies. */
-#include "../mc/sigma.h"
+#include "../mc/oracles.h"
 
 #include <string.h>
 
-enum { ARB_NONE = 0, ARB_TOP = 0xFF };          /* otherwise: station index of the active mapper */
-static struct { uint8_t arb; } M;
+static struct { arb arb; } M;
 
 static pev EV[512]; static int NEV;
 
 static int is_disc_tos(uint8_t tos) { return tos == 0 || tos == 1; }
-
-/* reference arbiter: returns expectation for a Discover: 1 accept, 0 reject, -1 unconstrained, -2 n/a */
-static int arbiter_step(const pev *e) {
-    if (!is_disc_tos(e->tos)) return -2;                 /* other services: no change, silence */
-    switch (e->opcode) {
-        case 0x00:
-            if (M.arb == ARB_TOP) return -1;
-            if (M.arb == ARB_NONE) { M.arb = e->realsrc; return 1; }
-            return M.arb == e->realsrc ? 1 : 0;
-        case 0x08: M.arb = ARB_NONE; return -2;
-        case 0x02: case 0x06: case 0x0B:
-            /* a command from the active mapper changes nothing; from anybody else the
-             * property leaves a take-over unconstrained until the next Reset */
-            if (M.arb != e->realsrc) M.arb = ARB_TOP;
-            return -2;
-        default: return -2;
-    }
-}
+static int arbiter_step(const pev *e) { return arb_step(&M.arb, e); }
 
 static int count_sends(void) { int n = 0; for (uint32_t i = 0; i < W.ntrace; i++) if (W.trace[i].kind == VF_T_SEND) n++; return n; }
 static int first_send_opcode(void) {
@@ -57,14 +39,14 @@ static void oracle(const pev *e, int expect) {
 
 static void apply(int ev) {
     const pev *e = &EV[ev];
-    uint8_t before = M.arb;
+    arb before = M.arb;
     int expect = arbiter_step(e);
     drv_linux(e, 0);
     if (!is_disc_tos(e->tos)) M.arb = before;
     oracle(e, expect);
 }
 static void ev_name(int ev, char *buf, size_t cap) { pev_name(&EV[ev], buf, cap); }
-static void root_setup(void) { M.arb = ARB_NONE; }
+static void root_setup(void) { M.arb.v = ARB_NONE; }
 
 static void build_alphabet(void) {
     static const uint8_t toss[] = {0, 1, 2, 3, 0xFF};
@@ -95,7 +77,7 @@ static pev sweep_ev(int code) {
 static void sweep_name(int ev, char *buf, size_t cap) { pev e = sweep_ev(ev); pev_name(&e, buf, cap); }
 static void sweep_apply(int ev) {
     pev e = sweep_ev(ev);
-    uint8_t before = M.arb;
+    arb before = M.arb;
     int expect = arbiter_step(&e);
     drv_linux(&e, 0);
     if (!is_disc_tos(e.tos)) M.arb = before;
@@ -117,7 +99,7 @@ static void run_sweep(void) {
                     vf_trace_clear(); sweep_apply(path[i]);
                     if (W.led.bad_free || vf_check_canaries()) vf_violation("heap:corruption", "heap damaged");
                 }
-                uint64_t th = vf_trace_hash() ^ ((uint64_t)M.arb << 56); vf_outcome(th);
+                uint64_t th = vf_trace_hash() ^ ((uint64_t)M.arb.v << 56); vf_outcome(th);
                 evals++;
             }
         }
